@@ -910,6 +910,10 @@ def run(tier, procs=None, only=None):
     )
 
 
+# every real-library oracle of this property (each returns (reproduced, detail)); used to confirm structural facts that carry no replay of their own
+ALL_REPLAYS = [replay_pca, replay_classify]
+
+
 def replay(data):
     key = data.get("key", "")
     ok, detail = (replay_classify if "classify" in key else replay_pca)(data.get("cex") or {})
